@@ -577,6 +577,23 @@ def Fs.remove (fs : Fs) (l : Loc) : Fs := { fs with entries := fs.entries.filter
 /-- location named by an absolute, normalised path string (no walk: purely by names) -/
 def locOf (p : Bytes) : Loc := (comps p).reverse
 
+/-- drop the object at `l` and everything below it (`rm -r`, never following links) -/
+def Fs.purge (fs : Fs) (l : Loc) : Fs := { fs with entries := fs.entries.filter (fun x => !(l.isSuffixOf x.1)) }
+
+/-- The environment steps of the correspondence run (`put`, `rm`, the mutation of `sched` / `race`): they name the object by an
+absolute path WITHOUT `.`/`..`, and act only when the parent of that path is a real directory reached through real directories
+(`Fs.get` by names: no symbolic link is traversed) — otherwise nothing happens.  Replacing or removing an object removes
+everything below it.  (The harness applies the same rule: `realpath(parent) == parent`.) -/
+def Fs.envSet (fs : Fs) (l : Loc) (e : Entry) : Fs :=
+  match l with
+  | [] => fs
+  | _ :: up => if fs.get up = some .dir then (fs.purge l).set l e else fs
+
+def Fs.envRemove (fs : Fs) (l : Loc) : Fs :=
+  match l with
+  | [] => fs
+  | _ :: up => if fs.get up = some .dir then fs.purge l else fs
+
 /-! ## 6. Which system-call boundaries one lookup reaches (for the deterministic schedules of the harness)
 
 The points at which the harness can change the file system, named by the system call that FOLLOWS the change:
